@@ -87,6 +87,14 @@ CHECKS = {
              "The trajectory argument behind 'readable covers very readable' is stated, not proved.",
         ref="DESIGN 3/C16",
         note=TB + "; contracts (sa/contracts.py) transcribe the property; calculate_contrast_ratio / calculate_delta_e_2000 and the colour-preserving format wrappers are uninterpreted (their correctness: C05/C11/C06); A1 no NaN; oklch_to_rgb_safe yields valid 8-bit triples (C10)"),
+    "C05": dict(
+        technique="static formula-shape and constant audit: closed-form extraction from the ast (temporaries and helpers inlined, hash-consed DAG), alignment with the WCAG definition modulo commutativity, per-constant comparison, partial evaluation of the label if-chains",
+        category="other",
+        text="Decides that the source *is* the WCAG 2 formula: linearisation curve, the three weights bound to their channels, (max+0.05)/(min+0.05) (symmetric, >= 1 by shape), inclusive thresholds per text size, the level/label "
+             "mapping over the closed set of levels. A fourth-decimal weight error or a non-inclusive threshold changes results only on a thin set of inputs the tests never touch, but is one mismatching node here. "
+             "Float rounding / bit-exact agreement on 2^24 colours is not decided.",
+        ref="DESIGN 3/C05",
+        note=TB + "; reference formulas in checks/C05.py transcribe WCAG 2; the sRGB knee is compared by 8-bit equivalence class (0.03928 and 0.04045 both accepted)"),
 }
 
 NOT_APPLICABLE = {
